@@ -1,5 +1,7 @@
 import CkcVerif.Tie.TwoCard
 import CkcVerif.Spec.Layout
+import CkcVerif.Props.C17
+import CkcVerif.Props.C10
 /-!
 # Source tie: the Chen score (`get_chen_points`, `chen_formula`)
 
@@ -38,6 +40,17 @@ theorem Two_chen_formula (a b : Nat) (ha : a ∈ deckWords) (hb : b ∈ deckWord
   have := List.all_eq_true.mp (List.all_eq_true.mp chenPairsChk_ok a ha) b hb
   simpa using this
 
+/-- C17 for the source: the translated `chen_formula` of any two distinct real cards, in either slot order, is Chen's
+    formula of the higher rank, the lower rank and suitedness -/
+theorem C17_source (c d : Card) (hc : c.ok) (hd : d.ok) (hne : c ≠ d) :
+    Src.Two.chen_formula [c.word, d.word]
+      = some (chenSpec (max c.rank d.rank + 2) (min c.rank d.rank + 2) (c.suit == d.suit)) := by
+  have mem : ∀ r < 13, ∀ s < 4, word r s ∈ deckWords := by decide
+  have hcw : c.word ∈ deckWords := mem c.rank hc.1 c.suit hc.2
+  have hdw : d.word ∈ deckWords := mem d.rank hd.1 d.suit hd.2
+  rw [Two_chen_formula _ _ hcw hdw]
+  exact C17.C17_score c d hc hd hne
+
 end Tie
 
 /-! ## axiom audit (written by tools/tie.py --audit) -/
@@ -45,3 +58,4 @@ end Tie
 #print axioms Tie.u32_get_chen_points
 #print axioms Tie.chenPairsChk_ok
 #print axioms Tie.Two_chen_formula
+#print axioms Tie.C17_source
